@@ -324,6 +324,10 @@ def _copy(a, pre):
         y = copy.copy(x)
     elif how == "deepcopy":
         y = copy.deepcopy(x)
+    elif how in ("deepcopy-pair", "pickle-pair"):
+        # two values cloned TOGETHER (one memo / one pickle stream): the second one is looked at
+        pair = copy.deepcopy([pre[0], pre[1]]) if how == "deepcopy-pair" else pickle.loads(pickle.dumps((pre[0], pre[1]), protocol=4))
+        x, y = pre[1], pair[1]
     else:
         y = pickle.loads(pickle.dumps(x, protocol=int(how[-1])))
     if a.get("raw"):
